@@ -98,6 +98,8 @@ def run(idx: Index, rep: Report, tier: str):
     rep.decide(ok, rule, gv, gv.node, text="slice 0:2k:2 and 1:2k+1:2 each select k positions", what="each slice selects exactly as many positions as electrons of that spin", reason="slice length differs")
     check_deleted_qubits(idx, rep)
     check_dispatch(idx, rep)
+    from . import C03 as _C03
+    _C03.check_dispatch(idx, rep)                 # the operator encoder's own dispatch and refusals (zero electrons is a valid sector)
     check_vector_to_circuit(idx, rep)
 
 
